@@ -36,6 +36,16 @@ CHECKS = {
          "Verdict!RemoveBadfilter and Rule!Twin state that a $badfilter rule disables exactly the rules equal to it apart from that modifier. TLC enumerates bags from a pool made of a rule carrying every list-valued modifier, its twin, twelve near twins (one differing modifier value each) with their own twins, and plain/exception/rewrite rules with twins, checks TwinNeutral and OnlyTwins on the model and emits the verdicts; the harness replays every permutation through NewMatchingResult, GetDNSBasicRule and the engines.",
          "Trusted: TLC, the renderer. Twins are produced by appending ',badfilter' to the same text.",
          "6/C08"),
+ "C07": ("model_checking",
+         "complete observed priority relation (all ordered pairs of a feature-product pool) validated by TLC against the strict-weak-order laws and the documented criteria; selection replayed over all permutations",
+         "spec/MC_Priority.tla builds the pool as the cartesian product of every feature the comparison reads (288 rules quick, 1728 thorough) and checks that the intended rank-induced relation is a strict weak order; the harness evaluates the real IsHigherPriority on EVERY ordered pair (including (a,a)) and spec/Trace_Priority.tla checks irreflexivity, asymmetry, the rank characterisation R(a,b) <=> outdeg(a) > outdeg(b) (equivalent to 'strict weak order'), class-first / specific-over-generic / more-modifiers-higher, and on the 288-pool transitivity and transitivity of ties on all 23.9 M triples directly. The 'winner is never outranked' half replays every permutation of every candidate bag (MC_Verdict) through the five entry points and compares the reported rule with all candidates using the code's own relation.",
+         "Trusted: TLC, the renderer. The code's own relation is tested against the laws; a different lawful tie-break does not alarm.",
+         "6/C07"),
+ "C16": ("model_checking",
+         "TLC enumeration of all 2^9 exception-modifier subsets with the TLA+ CosmeticOption meaning (antitone theorem); replay through GetCosmeticOption and the engine",
+         "Verdict!CosmeticOption states the option as All minus the union of what each modifier disables; TLC enumerates all 512 subsets plus the blocking and absent basic rule, checks the antitone and union-of-parts theorems, and every case is replayed in two modifier orders through NewMatchingResult.GetCosmeticOption, Engine.MatchRequest and Engine.GetCosmeticResult (decoding the option through the selectors actually returned). Exhaustive in both tiers.",
+         "Trusted: TLC; the rule text is the modifier list itself.",
+         "6/C16"),
 }
 
 NOT_YET = "check not built yet in this session (see DESIGN.md section 6 for the planned TLA+ decision procedure)"
